@@ -2,6 +2,7 @@
 # tools/slot.sh setup <n>                      scratch copy of /repo (git worktree) and of the harness under /tmp/slot/<n>
 # tools/slot.sh sync <n>                       bring the slot's harness copy up to date with /verif/harness
 # tools/slot.sh run <n> <patch.diff> <ID> [tier] [base]   apply a seeded change to the slot's repo copy, run the check there, undo
+# tools/slot.sh check <n> <ID> [tier]           run a check in the slot on the slot's unchanged copy of /repo
 # tools/slot.sh teardown <n>                   remove the slot (worktree, build output)
 # Slots exist so that several seeded changes can be tried at once without ever touching /repo; the checks
 # registered in MANIFEST.json never use them.
@@ -41,6 +42,14 @@ case "$CMD" in
     grep -E "^(VIOLATION|KNOWN-FINDING|MACHINERY|property=)" "$S/out.txt" | cut -c1-300 | head -n 40
     echo "exit=$RC"
     find "$S/verif/replays" -mindepth 1 -delete 2>/dev/null
+    ;;
+  check)
+    # tools/slot.sh check <n> <ID> [tier]   run a check in the slot against the slot's unchanged copy of /repo
+    ID="$3"; TIER="${4:-quick}"
+    cd "$S/repo" && git checkout -- . || exit 3
+    "$S/verif/check" "$ID" "$TIER" > "$S/out.txt" 2>&1; RC=$?
+    grep -E "^(VIOLATION|KNOWN-FINDING|MACHINERY|property=)" "$S/out.txt" | cut -c1-300 | head -n 40
+    echo "exit=$RC"
     ;;
   teardown)
     git -C /repo worktree remove --force "$S/repo" 2>/dev/null
